@@ -52,7 +52,9 @@ RULE = ("pairs of byte strings per file type (8 types incl. an unknown extension
         "placeable shapes, optional injected 0xFF bytes), byte-level mutations of them (delete, "
         "insert, duplicate, splice, invalid UTF-8 sequences, NUL, CR/CRLF, BOMs, unbalanced quotes "
         "and tags), truncation at every position of a small file, arbitrary bytes and token soups, and "
-        "large / deeply nested / numerically extreme content as the value of a shared string; "
+        "large / deeply nested / numerically extreme content as the value of a shared string, and every "
+        "single-character edit (removed, doubled, 0, 9) of each format's value tokens (printf, plural, "
+        "escapes, entity/character references, placeables, variants) on the localized, reference and both sides; "
         "each pair observed through compare / compare+merge / add / remove / lint_file in a worker "
         "process under a watchdog; distinct by (type, ref bytes, l10n bytes); non-trivial = the two "
         "files share at least one key or the localization has junk")
@@ -264,6 +266,35 @@ HOSTILE = [b"%3000000000$S", b"%" + b"9" * 4301 + b"$S", b"#" + b"9" * 4301, b"%
            b"#1;" * 3000, b"k" * 5000 + b"=", b"=" * 5000, b"\r" * 5000, b"{ -t(a: 1) }" * 800]
 
 
+# the syntactic tokens of each format's values; suite ROBUST applies every single-character edit to them
+NEAR_TOKENS = {
+    "properties": [b"%1$S", b"%S", b"%d", b"%.2f", b"%2$S %1$S", b"%1$10.3f", b"%*d", b"%%", b"#1", b"#1;#2",
+                   b"\\u0041", b"\\n", b"\\:"],
+    "dtd": [b"&name;", b"&#38;", b"&#x26;", b"&amp;", b"%S", b"%1$S", b"10em", b"width: 10em", b"12.5", b"<b>x</b>",
+            b"\\u0041"],
+    "android": [b"%1$s", b"%s", b"%d", b"%.2f", b"%2$s %1$d", b"\\'", b'\\"', b"\\u0041", b"@string/x", b"&amp;",
+                b"&#38;", b"<![CDATA[x]]>", b"<b>x</b>"],
+    "ftl": [b"{ $x }", b"{ -term }", b"{ msg.attr }", b'{ "lit" }', b"{ NUMBER($n) }", b"{ -t(a: 1) }",
+            b"{ $n ->\n    [one] a\n   *[other] b\n  }", b"\\u0041", b'{ "\\u0041" }'],
+    "ini": [b"%S", b"%1$S", b"\\n", b"&name;"],
+    "inc": [b"%S", b"%1$S", b"\\n", b"&name;"],
+    "po": [b"%S", b"%1$s", b"%(name)s", b"{0}", b'\\"', b"\\\\", b"\\n"],
+    "unknown": [b"%S"],
+}
+
+
+def near_misses(tok):
+    """every single-character edit of a token: character removed, doubled, replaced by 0 / 9"""
+    out, seen = [], {tok}
+    for p in range(len(tok)):
+        for v in (tok[:p] + tok[p + 1:], tok[:p] + tok[p:p + 1] + tok[p:], tok[:p] + b"0" + tok[p + 1:],
+                  tok[:p] + b"9" + tok[p + 1:]):
+            if v not in seen:
+                seen.add(v)
+                out.append(v)
+    return out
+
+
 def mutate(rng, b, other):
     """one byte-level mutation"""
     b = bytearray(b)
@@ -365,6 +396,21 @@ def make_cases(chk):
                 plain = serialize(ft, base, rng)
                 p = rng.randint(0, len(plain))
                 add(ft, plain, plain[:p] + h + plain[p:], "hostile")
+    # near-miss tokens: a small exhaustive enumeration, format-aware, on the localized side (which is
+    # also the linted file), on the reference side, and on both; the edited token is the FIRST
+    # placeholder of its value
+    for ft in FT:
+        for tok in NEAR_TOKENS[ft]:
+            note = b"see Localization_and_Plurals" if tok.startswith(b"#") else None
+
+            def recs(t):
+                return [("title", b"a " + t + b" b", note), ("k1", b"value", None)]
+            good = recs(tok)
+            add(ft, serialize(ft, good, rng), serialize(ft, good, rng), "near-miss")
+            for v in near_misses(tok):
+                add(ft, serialize(ft, good, rng), serialize(ft, recs(v), rng), "near-miss")
+                add(ft, serialize(ft, recs(v), rng), serialize(ft, good, rng), "near-miss")
+                add(ft, serialize(ft, recs(v), rng), serialize(ft, recs(v), rng), "near-miss")
     for i in range(n_raw):
         ft = FT[i % len(FT)]
         r = rng.random()
